@@ -445,6 +445,11 @@ type Par[C any] struct {
 // check of each of them concurrently, several rounds each, so that state shared between calls that
 // ought to be independent shows up as a violation of one of them.  A runtime abort (concurrent map
 // access) kills the process; the driver then reports the written-ahead case.
+// FirstUse reports whether this process is one of a first-use leg (environment VERIF_FIRST_USE): the leg
+// starts many short processes so that whatever the code initialises lazily is reached by several
+// goroutines at once, in the first case of each process.
+func FirstUse() bool { return os.Getenv("VERIF_FIRST_USE") != "" }
+
 func ParallelProp[C any](r *Rec, test string, gen func(*rapid.T) C, check func(C, *Obs) error, k int) func(*rapid.T) {
 	pcheck := func(p Par[C], o *Obs) error {
 		if len(p.Cases) == 0 {
@@ -495,6 +500,10 @@ func ParallelProp[C any](r *Rec, test string, gen func(*rapid.T) C, check func(C
 	return func(t *rapid.T) {
 		n := rapid.IntRange(2, k).Draw(t, "nConcurrent")
 		p := Par[C]{Rounds: rapid.IntRange(2, 6).Draw(t, "rounds")}
+		if FirstUse() {
+			// first-use legs: many short processes, every goroutine meets the code for the first time
+			n, p.Rounds = k, 1
+		}
 		for i := 0; i < n; i++ {
 			p.Cases = append(p.Cases, gen(t))
 		}
